@@ -33,7 +33,13 @@ structure Cfg where
   persistent : Bool   -- `StorageID != nil`
   batching : Bool     -- `Batch != nil` (default batcher) vs disabled batcher
   retry : Bool        -- `retry_on_failure.enabled`
+  wfr : Bool := false         -- `wait_for_result` (memory queue; also what the legacy batcher without a queue forces):
+                              -- `Offer` returns what `done.OnDone` receives
+  itemsSized : Bool := false  -- queue sized by items (`sizer: items`) instead of by requests
 deriving DecidableEq, Repr
+
+/-- `sizer.Sizeof(req)` for the two sizers the model distinguishes -/
+def reqSize (cfg : Cfg) (b : List Nat) : Nat := if cfg.itemsSized then b.length else 1
 
 /-- state of one queue consumer goroutine (`asyncQueue.Start`) -/
 inductive CSt
@@ -88,12 +94,15 @@ structure State where
   early : List Item               -- ghost: items whose enqueue completed before shutdown was requested
   accepted : List Item            -- ghost: items of every completed enqueue
   stored : List Item              -- ghost (persistent queue): items in storage
+  reqs : List Batch := []         -- ghost: every enqueued request, in order
+  qsize : Nat := 0                -- `memoryQueue.size` / `persistentQueue.queueSize` (what the size gauge observes)
+  results : List (Batch × Bool) := []  -- ghost: requests whose `done.OnDone(err)` was called, with `err != nil`
 deriving Repr
 
 def init (cfg : Cfg) (nCons workers : Nat) (timer : Bool) : State :=
   { cfg := cfg, phase := 0, queue := [], cons := List.replicate nCons .idle, cur := none, workers := workers,
     timer := if cfg.batching && timer then .idle else .dead, shutHand := none, flights := [],
-    early := [], accepted := [], stored := [] }
+    early := [], accepted := [], stored := [], reqs := [], qsize := 0, results := [] }
 
 inductive Outcome | ok | perm | trans
 deriving DecidableEq, Repr
@@ -123,10 +132,27 @@ def afterFlush : List Batch → CSt
   | [] => .idle
   | p :: ps => .flushing (p :: ps)
 
+/-- items of the flights that have ended -/
+def doneItems (fs : List Flight) : List Item := fs.flatMap (fun fl => if fl.st == .done then fl.batch else [])
+
+/-- every piece of the request has ended its flight: the request's (ref-counted) `Done` fires.  `default_batcher.go` hands a
+request's `Done` exactly to the flushes that contain part of it. -/
+def reqDone (fs : List Flight) (r : Batch) : Bool := r.all (fun x => (doneItems fs).contains x)
+
+/-- the error a request's `Done` receives is non-nil iff some flight carrying part of it ended with an error
+(`refCountDone` joins the errors with `multierr.Append`) -/
+def reqFailed (fs : List Flight) (r : Batch) : Bool :=
+  fs.any (fun fl => fl.st == .done && fl.attempts != fl.failures + 1 && r.any (fun x => fl.batch.contains x))
+
 /-- the consumer goroutine that ran flight `f` itself returns to its `Read` loop -/
 def releaseOwner (cons : List CSt) (f : Nat) : Option Nat → List CSt
   | some i => if cons[i]? = some (.busy f) then cons.set i .idle else cons
   | none => cons
+
+/-- the requests whose last piece ends with flight `f` -/
+def completedBy (s : State) (f : Nat) (fl : Flight) (kept : Bool) (fail : Nat) : List Batch :=
+  s.reqs.filter (fun r =>
+    reqDone (s.flights.set f { fl with st := .done, failures := fl.failures + fail, kept := kept }) r && !reqDone s.flights r)
 
 /-- the flight ends: `done.OnDone(err)`; releases its consumer or its worker slot -/
 def finalise (s : State) (f : Nat) (fl : Flight) (kept : Bool) (fail : Nat) : State :=
@@ -134,7 +160,12 @@ def finalise (s : State) (f : Nat) (fl : Flight) (kept : Bool) (fail : Nat) : St
     flights := s.flights.set f { fl with st := .done, failures := fl.failures + fail, kept := kept }
     cons := releaseOwner s.cons f fl.owner
     workers := match fl.owner with | some _ => s.workers | none => s.workers + 1
-    stored := if kept then s.stored else s.stored.filter (fun x => !fl.batch.contains x) }
+    stored := if kept then s.stored else s.stored.filter (fun x => !fl.batch.contains x)
+    -- `onDone` of every request completed by this flight: the queue releases its size (Nat subtraction = the clamp at 0 of
+    -- persistent_queue.onDone), the producer of a `wait_for_result` queue receives the error
+    qsize := s.qsize - ((completedBy s f fl kept fail).map (reqSize s.cfg)).sum
+    results := s.results ++ (completedBy s f fl kept fail).map
+      (fun r => (r, reqFailed (s.flights.set f { fl with st := .done, failures := fl.failures + fail, kept := kept }) r)) }
 
 def allDoneOrOwned (fs : List Flight) : Bool := fs.all (fun fl => fl.owner.isSome || fl.st == .done)
 
@@ -144,13 +175,17 @@ def fire (s : State) : Label → Option State
       queue := s.queue ++ [(b, decide (1 ≤ s.phase))]
       accepted := s.accepted ++ b
       early := if s.phase = 0 then s.early ++ b else s.early
-      stored := if s.cfg.persistent then s.stored ++ b else s.stored }
+      stored := if s.cfg.persistent then s.stored ++ b else s.stored
+      reqs := s.reqs ++ [b]
+      qsize := s.qsize + reqSize s.cfg b }
   | .read i =>
     match s.cons[i]?, s.queue with
     | some .idle, (b, _) :: rest =>
       -- persistent_queue.Read checks `stopped` before looking at the storage; memory_queue.Read pops first
       if s.cfg.persistent && decide (2 ≤ s.phase) then none
-      else some { s with queue := rest, cons := s.cons.set i (.holding b) }
+      else some { s with queue := rest, cons := s.cons.set i (.holding b)
+                         -- persistent_queue.Read: `if readIndex == writeIndex { queueSize = 0 }`
+                         qsize := if s.cfg.persistent && rest.isEmpty then 0 else s.qsize }
     | _, _ => none
   | .exit i =>
     match s.cons[i]? with
@@ -204,7 +239,8 @@ def fire (s : State) : Label → Option State
         | .perm, .drop => some (finalise s f fl false 1)
         | .trans, .drop => some (finalise s f fl false 1)
         | .trans, .again =>
-          if s.cfg.retry then some { s with flights := s.flights.set f { fl with st := .backoff, failures := fl.failures + 1 } } else none
+          -- retry_sender.go checks `stopCh` before it starts the back-off: once the retry sender is stopped no retry is scheduled
+          if s.cfg.retry && decide (s.phase = 0) then some { s with flights := s.flights.set f { fl with st := .backoff, failures := fl.failures + 1 } } else none
         | .trans, .keep => if s.cfg.retry && decide (1 ≤ s.phase) then some (finalise s f fl true 1) else none
         | _, _ => none
       else none
